@@ -241,6 +241,7 @@ _ROUND5 = {
  'C12': ' r14 TOKENS (shared C08 r2): TranslateRS interpreted on scripted token streams with three occurrences of a name and a replacement of another length.',
  'C17': ' r18 TEXT-SLICES (shared C20 r5): ccl::Substr, through which write-back copies every plain segment, never cuts inside a multi-byte character.',
  'C19': ' r1 also orders OSSchema::Erase: an eraser that acts only while the pictogram is stored (tests Contains) runs before storage.erase.',
+ 'C10': ' r12 also decides that no invalidation of other values (ResetDependants, ResetFor, PruneStructure) is reachable from a loader of model values.',
 }
 for _k, _t in _ROUND5.items():
     _ROUND4[_k] = _ROUND4.get(_k, '') + _t
